@@ -578,8 +578,13 @@ Section Compat.
     strs_eqb (map fname (fp_fields T)) gen_fields &&
     forallb (fun o => forallb (fun m => forallb (cell_compat o m) (fp_fields T)) (methods o)) (fp_ops T) &&
     forallb (fun row => known_method (fst row) || getter_ok row) gen.
+  (* diagnostics: the (method, field) cells that are not compatible, and the unmodelled methods *)
+  Definition fx_bad_cells : list (String.string * String.string) :=
+    flat_map (fun o => flat_map (fun m => flat_map (fun f => if cell_compat o m f then [] else [(m, fname f)]) (fp_fields T))
+                                (methods o)) (fp_ops T) ++
+    flat_map (fun row => if known_method (fst row) || getter_ok row then [] else [(fst row, "(unmodelled method)"%string)]) gen.
 End Compat.
-Arguments fx_compat {field op}.
+Arguments fx_compat {field op}. Arguments fx_bad_cells {field op}.
 
 (* hand-justified cells.  Parser: currentToken is stored only when the token slice is non-empty and is not consulted
    when it is empty (lemma cur_guarded; probes with empty / nil / EOF-less slices).  Tokenizer: Reset uses only cap() and
